@@ -3,15 +3,15 @@
   codeword size / field by layer count, codeword assembly, the RS call as the abstract parameter `rs_Decode`, the
   stuffing count with its FormatException exits, the un-stuffing writes, `ecLevel`).
 
-  PARTIAL.  The full statement is
+  The full statement
       ∀ rs rawbits layers numDataCodewords, (rs_Decode agrees with rs and keeps the length) →
         Gen.K11b.correctBits fuel g10 g12 g6 g8 numDataCodewords layers rs_Decode rawbits
-          = expect (AztecDecoder.correctBits rs (boolsOf rawbits) layers numDataCodewords)
-  What is proved here is that equation on a fixed, structured set of arguments by kernel evaluation of BOTH sides
-  (`k_correctBits_samples_partial`): all four codeword sizes; data words 1 and mask-1 (stuffing, both polarities), ordinary
-  words, the illegal words 0 and mask (FormatException), a non-zero bit offset, numDataCodewords <, = and > numCodewords,
-  an RS decoder that fails, and the empty input (integer divide by zero).  Missing: the loop-invariant proofs for
-  arbitrary arguments (chunk loop = `chunkWords`, count loop + write loop = `unstuff`).
+          = expectCB (AztecDecoder.correctBits rs (boolsOf rawbits) layers numDataCodewords)
+  is `k_correctBits_eq` in Obligations/K11cCorrect.lean (wp k11b2).  This file keeps the vocabulary (`expectCB`, the sample
+  RS decoders) and the equation on a fixed, structured set of arguments by kernel evaluation of BOTH sides
+  (`k_correctBits_samples`, the non-vacuity companion of the full theorem): all four codeword sizes; data words 1 and
+  mask-1 (stuffing, both polarities), ordinary words, the illegal words 0 and mask (FormatException), a non-zero bit
+  offset, numDataCodewords <, = and > numCodewords, an RS decoder that fails, and the empty input (integer divide by zero).
 -/
 import Gzx.Obligations.K11b
 namespace Gzx.Obligations.K11b
@@ -39,7 +39,7 @@ def sampleOK (rs : RSDecoder) (rsI : Int → List Int → Int → Res (Bool × L
 
 when_kernel Gzx.Gen.K11b.correctBits in
 /-- `correctBits` agrees with the model on the structured sample set described in the file header -/
-theorem k_correctBits_samples_partial :
+theorem k_correctBits_samples :
     -- 6-bit words (1-2 layers): stuffing of both polarities, ordinary words, offset, all data / some data
     sampleOK rsId rsIdI 1 3 0 [1, 62, 37, 5, 9] = true ∧ sampleOK rsId rsIdI 2 5 3 [33, 1, 1, 62, 12] = true
     -- illegal words 0 and mask among the data words; the same words beyond the data words are harmless
